@@ -435,7 +435,11 @@ func c04scenarios(add func(name string, qb, tb int, tf bool, cfg c04cfg)) {
 			beh: map[string]c04beh{"A": {chunked: true, split: true, delay: sec, nested: true}, "B": {chunked: true, split: true, nested: true, close: true},
 				"C": {chunked: true}, "D": {chunked: true, split: true}}})
 		// --- buffered bodies
-		add("host/plain/2callers-2calls/2conns"+sfx, qb, tb, false, c04cfg{vconn: v, maxConns: 2,
+		tb2 := tb
+		if !v {
+			tb2 = 1 // PipeConns variant: 8*10^6 executions at bound 2 (20 min); the /v variant reaches bound 3
+		}
+		add("host/plain/2callers-2calls/2conns"+sfx, qb, tb2, false, c04cfg{vconn: v, maxConns: 2,
 			callers: [][]c04call{{{id: "A"}, {id: "C"}}, {{id: "B"}, {id: "D"}}},
 			beh:     map[string]c04beh{"A": {split: true, nested: true}, "B": {close: true}, "C": {chunked: true, split: true}, "D": {}}})
 		if v { // PipeConns variant: 5*10^5 executions at bound 1
